@@ -110,6 +110,7 @@ NEUTRAL_WORD = NEUTRAL_LETTERS + NEUTRAL_LETTERS.upper() + string.digits
 
 _CHARS = collections.Counter()          # characters used in secrets (flushed into ctx at the end of run)
 _CELLS = set()                          # (key, variant, rendering) cells evaluated by this worker
+_OBSERVED_NOTED = []                    # one note per worker about the observed-only zone
 
 
 _KEY_RE = re.compile('|'.join(re.escape(k) for k in KEYS))
@@ -205,6 +206,10 @@ def evaluate(ctx, case):
             return
         ctx.h('observed, not asserted: ' + case.get('cls', '?'),
               'as naively expected' if got == expected else 'differs')
+        if got != expected and not _OBSERVED_NOTED:
+            _OBSERVED_NOTED.append(True)
+            ctx.note('observed zone (not asserted): %s is not masked as naively expected, e.g. %r -> %r' % (
+                case.get('cls', '?'), message[:120], got[:120]))
         return
 
     # kind == 'mask'
